@@ -213,7 +213,18 @@ def h : Handler := fun op j =>
   | "allclose" => do
       out showBool (allcloseScalar (← getPy j "a") (← getPy j "b") (← getRat j "rtol") (← getPyOpt j "atol"))
   | "allclose_arrays" => do
-      out showBool (allcloseArrays (← getBool j "a_scalar") (← getPyList j "a") (← getPyList j "b") (← getRat j "rtol") (← getPyOpt j "atol"))
+      -- operands: {"scalar": PyVal} | {"arr": [PyVal…]}; atol the same or null
+      let arg (k : String) : Except String (Option (ArrArg Q)) :=
+        match j.getObjVal? k with
+        | .ok .null => pure none
+        | .ok v => match v.getObjVal? "scalar", v.getObjVal? "arr" with
+          | .ok x, _ => do pure (some (.scalar (← asPy x)))
+          | _, .ok l => do pure (some (.arr (← asPyList l)))
+          | _, _ => .error s!"!bad-arg:{k}"
+        | .error _ => .error s!"!bad-arg:{k}"
+      match (← arg "a"), (← arg "b") with
+      | some a, some b => out showBool (allcloseArrays a b (← getRat j "rtol") (← arg "atol"))
+      | _, _ => .error "!bad-arg:a/b"
   | "allclose_u" => do
       let mu (k : String) : Except String (MaybeUncertain Q) := do
         let v ← getPy j k
